@@ -4,6 +4,7 @@ CONSTANTS
   Statuses = {"run", "timeout"}
   WithExc = FALSE
   MaxCount = 5
+  UseCritical = FALSE
   Hazard = "shift_remove"
 SPECIFICATION Spec
 INVARIANT TypeOK
